@@ -11,7 +11,7 @@ use proptest::prelude::*;
 use serde::{Deserialize, Serialize};
 use std::collections::BTreeMap;
 
-pub const RULE: &str = "(D0) every protected name (16 keywords / inputs / constants / inf / infinity and every name of get_built_in_function_idents()) x 11 binding forms (plain, output, nested in parentheses / list / record / operator chain / conditional, function value; and inside a lambda body or do-block): the top-level forms must fail, and in all forms what typeof / to_string / field access observe of the name at top level, and the set of root names, must be unchanged. (D1) every sequence up to length 4 (thorough: 5 over a 25-template core) over an alphabet of statement templates on names a, b: bind, rebind, copy, nested assignment `a = (b = 5) + 1`, self-nested `a = (a = 1) + 1`, list-nested, partially failing `[a = 1, nope]`, `output a`, `output a = 1`, do-block shadowing / nested assignment inside a do-block / do-block returning a closure, functions whose parameters reuse a / b, calls, closures over a, assignment inside a lambda body (with parameters; anonymous without parameters, with and without captured names), failing statements, attempts to bind keywords, inputs, constants and built-in names; each statement is evaluated like a REPL line and compared with a bind-once reference model (success / failure, the whole root environment, values). (D2) random sessions of 5-40 generated statements with rebinding attempts and failing statements, checked with history invariants: snapshot monotonicity, no insert into the root environment for a key it holds (hook H2), reserved names never bound, root names are a subset of the names assigned in top-level position. Non-trivial = the history contains a (re)binding attempt on an already bound or reserved name, or a shadowing scope; distinct by the statement sequence.";
+pub const RULE: &str = "(D0) every protected name (16 keywords / inputs / constants / inf / infinity and every name of get_built_in_function_idents()) x 11 binding forms (plain, output, nested in parentheses / list / record / operator chain / conditional, function value; and inside a lambda body or do-block): the top-level forms must fail, and in all forms what typeof / to_string / field access observe of the name at top level, and the set of root names, must be unchanged. (D1) every sequence up to length 4 (thorough: 5 over a 27-template core) over an alphabet of statement templates on names a, b: bind, rebind, copy, nested assignment `a = (b = 5) + 1`, self-nested `a = (a = 1) + 1`, list-nested, partially failing `[a = 1, nope]`, `output a`, `output a = 1`, do-block shadowing / nested assignment inside a do-block / do-block returning a closure, functions whose parameters reuse a / b, calls, closures over a (reading it, rebinding it in a do-block) called at top level and from inside a function whose parameter is called a, assignment inside a lambda body (with parameters; anonymous without parameters, with and without captured names), failing statements, attempts to bind keywords, inputs, constants and built-in names; each statement is evaluated like a REPL line and compared with a bind-once reference model (success / failure, the whole root environment, values). (D2) random sessions of 5-40 generated statements with rebinding attempts and failing statements, checked with history invariants: snapshot monotonicity, no insert into the root environment for a key it holds (hook H2), reserved names never bound, root names are a subset of the names assigned in top-level position. (D3) sessions of 2-7 one-line statements (heap-valued bindings, nested bindings inside lines that fail later, rebinding attempts, allocating lines) typed into the interactive CLI on a pseudo-terminal; afterwards every name is printed and must show what the same lines give in-process. Non-trivial = the history contains a (re)binding attempt on an already bound or reserved name, or a shadowing scope; distinct by the statement sequence.";
 pub const ASSUMPTIONS: &[&str] = &[
     "hook H2 (thread-local log of Environment::insert) is a monitor only; with the feature off the code is unchanged",
     "a statement that fails half-way may keep the bindings its already-evaluated inner assignments made (the statement only requires that bound names never change)",
@@ -28,6 +28,8 @@ enum V {
     FnSum2,
     /// () => a with a captured (Some) or late-bound (None)
     FnReadA(Option<Box<V>>),
+    /// () => do { a = a + 1; return a } with a captured (Some) or late-bound (None)
+    FnIncA(Option<Box<V>>),
 }
 
 type Env = BTreeMap<&'static str, V>;
@@ -68,9 +70,11 @@ pub const TEMPLATES: &[&str] = &[
     /* 32 */ "(() => (a = 4))()",
     /* 33 */ "[() => (b = 6) + 1][0]()",
     /* 34 */ "(() => [t = a][0])()",
+    /* 35 */ "b = () => do {\n  a = a + 1\n  return a\n}",
+    /* 36 */ "((a) => b())(10)",
 ];
 
-const CORE: &[usize] = &[0, 1, 2, 3, 4, 5, 6, 7, 8, 10, 11, 12, 13, 14, 15, 17, 18, 19, 27, 28, 29, 30, 32, 33, 34];
+const CORE: &[usize] = &[0, 1, 2, 3, 4, 5, 6, 7, 8, 10, 11, 12, 13, 14, 15, 17, 18, 19, 27, 28, 29, 30, 32, 33, 34, 35, 36];
 
 fn num(v: &V) -> Option<f64> {
     match v {
@@ -197,6 +201,25 @@ fn model_step(t: usize, env: &mut Env) -> Result<(), ()> {
         18 => match env.get("b").cloned() {
             Some(V::FnReadA(Some(_))) => Ok(()),
             Some(V::FnReadA(None)) => env.get("a").map(|_| ()).ok_or(()),
+            // a + 1 needs a number: the captured one, or the top-level one when a was not bound at the definition
+            Some(V::FnIncA(Some(v))) => num(&v).map(|_| ()).ok_or(()),
+            Some(V::FnIncA(None)) => env.get("a").and_then(num).map(|_| ()).ok_or(()),
+            _ => Err(()),
+        },
+        35 => {
+            if bound(env, "b") {
+                return Err(());
+            }
+            let cap = env.get("a").cloned().map(Box::new);
+            env.insert("b", V::FnIncA(cap));
+            Ok(())
+        }
+        // b called from inside a function whose parameter is called a: a captured a wins, a
+        // late-bound one is found in the calling function
+        36 => match env.get("b").cloned() {
+            Some(V::FnReadA(_)) => Ok(()),
+            Some(V::FnIncA(Some(v))) => num(&v).map(|_| ()).ok_or(()),
+            Some(V::FnIncA(None)) => Ok(()),
             _ => Err(()),
         },
         19 | 20 | 21 | 22 | 23 | 24 | 25 | 31 => Err(()),
@@ -242,6 +265,15 @@ fn model_value(t: usize, env_after: &Env, env_before: &Env) -> Option<f64> {
         18 => match env_before.get("b") {
             Some(V::FnReadA(Some(v))) => num(v),
             Some(V::FnReadA(None)) => env_before.get("a").and_then(num),
+            Some(V::FnIncA(Some(v))) => num(v).map(|x| x + 1.0),
+            Some(V::FnIncA(None)) => env_before.get("a").and_then(num).map(|x| x + 1.0),
+            _ => None,
+        },
+        36 => match env_before.get("b") {
+            Some(V::FnReadA(Some(v))) => num(v),
+            Some(V::FnReadA(None)) => Some(10.0),
+            Some(V::FnIncA(Some(v))) => num(v).map(|x| x + 1.0),
+            Some(V::FnIncA(None)) => Some(11.0),
             _ => None,
         },
         27 => env_before.get("a").and_then(num).map(|x| x + 1.0),
@@ -283,7 +315,32 @@ pub enum Case {
     Session { stmts: Vec<String>, top_level_names: Vec<String> },
     /// an attempt to bind a protected name (keyword, built-in, inputs, constants) in one of PROTECTED_FORMS
     Protected { name: String, form: u8 },
+    /// lines typed into the interactive CLI on a pseudo-terminal; afterwards every name is
+    /// printed and compared with the same lines evaluated in-process
+    Repl(Vec<u8>),
 }
+
+/// one-line statements for interactive sessions: heap-valued bindings, nested bindings inside
+/// lines that fail later, rebinding attempts, allocation-heavy lines
+pub const REPL_LINES: &[&str] = &[
+    "[b = \"hello\", nope]",
+    "c = \"world\"",
+    "a = [1, 2, 3]",
+    "[a = {k: \"v\"}, 1 + \"x\"]",
+    "b = \"text\" + \"!\"",
+    "nope_undefined",
+    "d = a",
+    "1 + \"x\"",
+    "e = [b, c]",
+    "a = \"again\"",
+    "range(50) via (i => to_string(i))",
+    "c = {list: [1, [2, 3]], s: \"in a record\"}",
+    "[d = x => x + 1, d(nope)]",
+    "f = y => [y, \"closure\"]",
+    "e = f(2)",
+    "{k: (b = [\"x\", \"y\"]), z: 1 / \"0\"}",
+];
+const REPL_NAMES: &[&str] = &["a", "b", "c", "d", "e"];
 
 /// (text with NAME as the placeholder, must the statement fail?). The last three bind inside a
 /// function body or do-block: whatever the statement does, the top level must be unaffected.
@@ -339,7 +396,7 @@ impl Check for History {
                     let src = TEMPLATES[ti];
                     let before = env.clone();
                     let want = model_step(ti, &mut env);
-                    if want.is_err() || matches!(ti, 11 | 12 | 27 | 28 | 29 | 30 | 32 | 33 | 34) {
+                    if want.is_err() || matches!(ti, 11 | 12 | 27 | 28 | 29 | 30 | 32 | 33 | 34 | 35 | 36) {
                         nontrivial = true;
                     }
                     verif_hooks::arm();
@@ -402,6 +459,53 @@ impl Check for History {
                 let names_after: Vec<String> = snapshot(&sess).keys().cloned().collect();
                 if let Some(k) = names_after.iter().find(|k| !names_before.contains(k) && (k.as_str() != "zq" || got.is_err())) {
                     fail!(format!("protected:root-gained:{}", tmpl.replace('\n', " ")), "after `{}` ({:?}) the root environment gained the name {}", src, got.as_ref().map(|_| "ok"), k);
+                }
+                Ok(())
+            }
+            Case::Repl(seq) => {
+                ctx.label("interactive-repl");
+                ctx.nontrivial(hash_str(&format!("repl{:?}", seq)));
+                let lines: Vec<String> = seq.iter().map(|i| REPL_LINES[*i as usize % REPL_LINES.len()].to_string()).collect();
+                // reference: the same lines, one by one, in-process
+                let sess = Sess::new();
+                sess.set_inputs(&[]);
+                for l in &lines {
+                    let _ = sess.obs(l);
+                }
+                let want: Vec<Option<String>> = REPL_NAMES
+                    .iter()
+                    .map(|n| match sess.obs(&format!("format(\"{{}}\", {})", n)) {
+                        Ok(MV::Str(t)) => Some(t),
+                        _ => None,
+                    })
+                    .collect();
+                let mut typed = lines.clone();
+                for n in REPL_NAMES {
+                    typed.push(format!("print(\"<<{{}}:{{}}>>\", \"{}\", {})", n, n));
+                }
+                let lim = crate::engine::proc::Limits { mem_bytes: 4 << 30, stack_bytes: 8 << 20, timeout: std::time::Duration::from_secs(60) };
+                let r = match crate::engine::proc::run_pty(&ctx.cli_path, &typed, &lim) {
+                    Ok(r) => r,
+                    Err(e) => fail!("repl:spawn-pty", "{}", e),
+                };
+                if r.timed_out {
+                    ctx.label("resource-inconclusive");
+                    return Ok(());
+                }
+                let tail: String = r.stdout.chars().rev().take(500).collect::<String>().chars().rev().collect();
+                if r.signal.is_some() || r.code != Some(0) {
+                    fail!(format!("repl:crash:{}", r.describe()), "the interactive CLI ended with {} during the session\n{}\n--- end of its output: {:?}", r.describe(), lines.join("\n"), tail);
+                }
+                for (n, w) in REPL_NAMES.iter().zip(&want) {
+                    let marker = format!("<<{}:", n);
+                    let got = r.stdout.rfind(&marker).and_then(|i| r.stdout[i + marker.len()..].find(">>").map(|j| r.stdout[i + marker.len()..i + marker.len() + j].to_string()));
+                    if got != *w {
+                        fail!(
+                            format!("repl:binding-differs:{}", if w.is_some() { "bound" } else { "unbound" }),
+                            "after the session\n{}\nthe interactive CLI shows {} = {:?}; evaluated in-process the same lines give {:?}\n--- end of its output: {:?}",
+                            lines.join("\n"), n, got, w, tail
+                        );
+                    }
                 }
                 Ok(())
             }
@@ -569,6 +673,11 @@ pub fn run(ctx: &mut Ctx) {
     }
     // random longer template histories
     ctx.run_random(&History, prop::collection::vec(0u8..TEMPLATES.len() as u8, 5..14).prop_map(Case::Templates), ctx.tier.pick(20_000, 400_000));
+    // D3: interactive sessions on a pseudo-terminal vs the same lines in-process
+    let mut repl = vec![Case::Repl(vec![0, 1, 8]), Case::Repl(vec![3, 11, 6]), Case::Repl(vec![15, 2, 10, 8]), Case::Repl(vec![12, 13, 14, 5, 9])];
+    repl.truncate(if thorough { 4 } else { 4 });
+    ctx.run_enum(&History, repl.into_iter(), false);
+    ctx.run_random(&History, prop::collection::vec(0u8..REPL_LINES.len() as u8, 2..8).prop_map(Case::Repl), ctx.tier.pick(28, 600));
     // D2: random sessions
     ctx.run_random(&History, prop::collection::vec(any::<u16>(), 0..400).prop_map(|t| session_case(&t)), ctx.tier.pick(8_000, 150_000));
 }
